@@ -262,6 +262,17 @@ def run_shard(spec, rec):
                     got = (len(o[1]) == 1) if o[0] == "ok" else mon.describe_outcome(o)
                     if got is not False:
                         rec.violation("non-string-argument-not-false", {"function": fn, "s": jsonable(s), "p": jsonable(pp), "observed": got})
+    # patterns of doubtful validity (gray zones of RFC 9485, constructs of other dialects): the result is not decided
+    # here, but neither function may raise
+    for pat in G.HOSTILE_PATTERNS + ["a{2,1}", "[z-a]", "[b-a]x", "a{3,2}b", "(a{2,1})", "[^z-a]", "\\p{Cn}", "a{00}", "[a-\\d]", "x{1,0}|y"]:
+        for fn in ("match", "search"):
+            for s_ in ("a", "", "ab", "z"):
+                for literal in (True, False):
+                    q, doc, got = ask(jp, rec, fn, s_, pat, literal, R)
+                    rec.case(("hostile", pat, s_, fn, literal), True)
+                    rec.feat("hostile-pattern")
+                    if got is not True and got is not False:
+                        rec.violation("pattern-makes-%s-raise" % fn, {"function": fn, "pattern": pat, "subject": s_, "query": q, "observed": got})
     # the listed finding's own witness, so that it is observed on every run
     for s in ("a", "-"):
         q, doc, got = ask(jp, rec, "match", s, "[^\\P{L}\\p{L}]", False, R)
